@@ -56,7 +56,7 @@ def gen_cases(chk, quick):
             cases += variants(rng, n, e, 1, quick)
     else:
         for e in dags4:
-            cases += variants(rng, 4, e, 4, quick)
+            cases += variants(rng, 4, e, 3, quick)
         for n, e in small:
             cases += variants(rng, n, e, 12, quick)
         for _ in range(150):
@@ -137,7 +137,7 @@ def run(chk):
     cycles = gen_cycles(chk, quick)
     chk.extra['rule'] = (
         ('a seeded sample of 60 of the 543 labelled DAGs on 4 steps x 2 variants + all 29 DAGs on <= 3 steps' if quick else
-         'ALL 543 labelled DAGs on 4 steps x 4 variants + all 29 DAGs on <= 3 steps x 12 variants + 150 random DAGs on 5..8 steps') +
+         'ALL 543 labelled DAGs on 4 steps x 3 variants + all 29 DAGs on <= 3 steps x 12 variants + 150 random DAGs on 5..8 steps') +
         '; a variant draws: realisation of every edge (explicit --step | --output-file/--file | --output-file/--glob), when in {by_dependencies, always, never}, '
         'a private input file dependency (p=.3), per step command true | sleep 30-150 ms | false | sleep+false, pool in {1,2,4,n}, one or two consecutive runs; '
         '18 targeted chains s2->s1->s0 (s0 fails or not, when(s1) in all three, all three edge kinds); producers creating outputs that do not exist before the run; '
